@@ -297,7 +297,7 @@ def _bfs_expand(args):
                     # labels must stay enabled on replay (determinism check)
                     h2.apply(l)
                 h2.finish(False)
-                fp = h2.fingerprint()
+                fp = h2.fingerprint() if not cfg.get("_no_dedupe") else "H" + _digest(hh)
                 vio = [dict(v.as_dict(), cfg=cfg, labels=hh, harness=factory_spec) for v in h2.violations]
                 out.append((hh, fp, vio, _digest(h2.outcome()), bool(h2.nontrivial())))
             except Exception:
@@ -312,6 +312,11 @@ def bfs(factory_spec, cfg, depth, seed=0, max_states=None, max_violations=20):
     """Breadth-first search to `depth` events with fingerprint de-duplication."""
     from mc import bootstrap
     bootstrap.init()
+    from mc import scan
+    audit_ok, _note = scan.audit()
+    if not audit_ok:
+        # unknown suspended-iterator state: never merge two histories (still exhaustive, only slower)
+        cfg = dict(cfg, _no_dedupe=True)
     factory = load_factory(factory_spec)
     st = Stats()
     h0 = factory(cfg)
